@@ -36,20 +36,20 @@ TEXT = {
             "Headers, typed INFO/FORMAT parsing, floats and whole records are outside.", TECH_KANI),
     "C10": ("§5 C10", "Solver-decided BCF typed-value kernels: Int8/16/32 sentinel classification for every raw value, integer width selection never collides with reserved codes for all i32, type descriptor inverse incl. overflow length form, float bit patterns, genotype allele code inverse.",
             "String-map resolution, whole records and VCF text equivalence outside.", TECH_KANI),
-    "C11": ("§5 C11", "Solver-decided: fai::Record::query offset arithmetic by induction over base index for ALL u64 geometries (MIR->SMT, cvc5) with an 8-bit Kani cross-check; indexer vs naive parser on tiny symbolic FASTA files.",
-            "bgzipped FASTA (deflate) and FASTQ round trip outside.", TECH_BOTH),
-    "C12": ("§5 C12", "Solver-decided over read schedules: the leaf read loops (default_read_exact, BAM read_exact_or_eof/read_block_size/read_record, BGZF read_frame_into, FASTA line scanners) return the same result for EVERY partition of a small stream into short reads and every placement of <=2 Interrupted errors, compared with the plain-slice run.",
-            "Text readers above the leaf loops (std read_until) and whole files outside; stream sizes per obligation.", TECH_KANI),
-    "C13": ("§5 C13", "Solver-decided over the cut point: BAM/BCF record readers, BGZF frame reader and CRAM container-header reader over stream[..c] for a symbolic c yield a prefix then Ok(EOF) only at a boundary and an error otherwise.",
-            "Whole files through inflate and index files outside; streams are two minimal records/frames.", TECH_KANI),
+    "C11": ("§5 C11", "Solver-decided: fai::Record::query offset arithmetic by induction over base index for ALL u64 geometries (MIR->SMT, cvc5) ; the indexer's line scanner (consume_sequence_line: line width / base count with CR LF and LF endings, unterminated last line) and the sequence Reader (terminator stripping, stop at '>') on small symbolic lines under every split into two fill_buf windows.",
+            "bgzipped FASTA (deflate), whole-file indexer (String/Vec records) and FASTQ round trip outside.", TECH_BOTH),
+    "C12": ("§5 C12", "Solver-decided over read schedules: the leaf read loops (default_read_exact, BAM read_exact_or_eof/read_block_size/read_record, BCF size reader, BGZF read_frame_into) and the hand-written fill_buf/consume line scanners (FASTA sequence reader and indexer, FASTQ definition/plus line, SAM/BED/VCF read_field, VCF header adaptor) return the same result for EVERY partition of a small stream into short reads / fill_buf windows (solver-placed splits, or one instance per concrete split where symbolic splits do not fit) and every placement of <=2 Interrupted errors. memchr is replaced by a first-occurrence loop under cfg(kani) (documented contract). One known finding (F24, VCF per-window UTF-8 validation) and one shared with C20 (F10).",
+            "std read_until-based readers and whole files outside; stream sizes per obligation (lines of 3..8 bytes).", TECH_KANI),
+    "C13": ("§5 C13", "Solver-decided over the cut point: the BAM record reader, the BCF record-size reader and the BGZF frame reader over stream[..c] for a symbolic c yield a prefix then Ok(EOF) only at a boundary and an error otherwise; the BGZF Reader at end of input reports EOF (F8 fixed); text scanners (FASTA sequence, FASTQ plus line, VCF header adaptor) on a last line without terminator.",
+            "CRAM container-header reader (harness exists, does not fit: off), whole files through inflate and index files outside; streams are two minimal records/frames.", TECH_KANI),
     "C14": ("§5 C14", "Solver-decided over fault schedules: write_frame and the BGZF Writer (write/flush/try_finish/drop) against a nondeterministic sink (failure at a symbolic call index, symbolic short writes, Interrupted) - a failure is surfaced, Ok implies complete byte-identical output.",
             "Multithreaded writer and high-level format writers outside; fault dimensions are explored in separate harnesses.", TECH_KANI),
-    "C15": ("§5 C15", "Solver-decided absence of panics/overflow/out-of-bounds for ARBITRARY bytes up to the stated size fed to the listed decoders (integer codings, BGZF frame parser, BCF typed values, BAM validate=>accessors, CRAM block/rANS headers, gzi/fai queries, corrupt seek offsets).",
+    "C15": ("§5 C15", "Solver-decided absence of panics/overflow/out-of-bounds for ARBITRARY bytes up to the stated size fed to the listed decoders (integer codings, BGZF frame parser, BCF typed values, BAM validate=>accessors, CRAM block/rANS headers, gzi/fai queries, corrupt seek offsets, CSI geometry), and the inductive step 'field bounds stay inside the line buffer' of the lazy SAM/VCF/BED line readers (read_field from an arbitrary pre-state over arbitrary bytes; found and fixed F20/F22/F23).",
             "Only inputs up to the per-obligation size; allocation size, stack depth and wall-clock are not modelled.", TECH_KANI),
     "C17": ("§5 C17", "Solver-decided: reg2bin(feature) is in the closed-form bin set of every intersecting region for ALL interval pairs at (14,5) and other geometries; the real reg2bins equals the closed form at small concrete geometries; parent chain; chunk-list soundness (shared with C04); index leaf writer->reader inverses.",
             "Depth-5 reg2bins is tied to the closed form only at small depth (loop body independent of depth: argument); multi-bin index files end-to-end outside.", TECH_KANI),
-    "C18": ("§9 C18", "Narrow, solver-decided: the GTF attribute-value quote/backslash escaping layer only (writer output == spec form for every 2-byte value; reader parse_field + escape_decode invert it for every 2-byte value).",
-            "GFF3 percent layer, BED field bounds, record-level round trips, attribute ordering and numeric columns outside.", TECH_KANI),
+    "C18": ("§9 C18", "Narrow, solver-decided: the GTF attribute-value quote/backslash escaping layer (writer output == spec form for every 2-byte value; reader parse_field + escape_decode invert it for every 2-byte value) and the BED record reader's bounds bookkeeping (read_field inductive step from an arbitrary line-buffer state; a reused Record<3> with ARBITRARY previous content keeps nothing of the previous line).",
+            "GFF3 percent layer, BED writer and numeric columns, record-level round trips, attribute ordering outside.", TECH_KANI),
     "C19": ("§9 C19", "Narrow, solver-decided CRAM query/index kernels: the real Query state machine yields a pending record iff it is on the queried reference and intersects (symbolic ids/positions), ReferenceSequenceContext::update one-step fold and raw-triple conversion.",
             "Container walking, slice decoding and CRAI text I/O outside.", TECH_KANI),
     "C20": ("§5 C20", "Narrow, solver-decided magic-number kernels of format autodetection on a symbolic window, incl. no-confusion for SAM writer output.",
